@@ -480,16 +480,21 @@ pub fn configs(prop: HProp, tier: Tier) -> Vec<ChainCfg> {
                         if depth == 3 && tier == Tier::Quick && (kind == HopKind::Json && abandon_after.is_some()) {
                             continue;
                         }
-                        out.push(ChainCfg {
-                            hops: vec![kind; depth],
-                            r_ns: if last_finishes { 10_000_000_000 } else { 50_000_000 },
-                            tau_ms: vec![0; depth],
-                            regime: Regime::NoSubscriber,
-                            last_finishes,
-                            abandon_after,
-                            alphabet: H_ABANDON | H_FINISH | H_REORDER,
-                            own_clients: false,
-                        });
+                        for own_clients in [false, true] {
+                            if own_clients && (kind != HopKind::Mem || depth == 3 && tier == Tier::Quick) {
+                                continue;
+                            }
+                            out.push(ChainCfg {
+                                hops: vec![kind; depth],
+                                r_ns: if last_finishes { 10_000_000_000 } else { 50_000_000 },
+                                tau_ms: vec![0; depth],
+                                regime: Regime::NoSubscriber,
+                                last_finishes,
+                                abandon_after,
+                                alphabet: H_ABANDON | H_FINISH | H_REORDER,
+                                own_clients,
+                            });
+                        }
                     }
                 }
             }
